@@ -1,8 +1,78 @@
-(* C11 - property theorems only (filled in below). *)
+(* C11 - property theorems only.  Each is closed by [exact]; see C11/Proofs.v. *)
 From Coq Require Import List ZArith.
-From VV Require Import C11.Pystr C11.Model.
+From VV Require Import C11.Pystr C11.Model C11.Proofs.
 Import ListNotations.
 
-Theorem C11_placeholder : True.
-Proof. exact I. Qed.
-Print Assumptions C11_placeholder.
+(* For EVERY text F = P ++ S and its prefix P: scanning P never fails with
+   anything but ScannerException, and when it succeeds everything it stored
+   (blocks with their batch number, times; newest first) is the oldest part of
+   what scanning F stores; _collres and times are functions of that history
+   ([inv]). *)
+Theorem C11_prefix_scan_safe :
+  forall (P S : str),
+  (forall e, scan_text P <> Err (Other e)) /\
+  (scan_text P = Err ScannerExc \/
+   exists sP, scan_text P = Ok sP /\ inv sP /\
+     forall sF, scan_text (P ++ S) = Ok sF -> hist_prefix sP sF /\ inv sF).
+Proof. exact prefix_scan_safe. Qed.
+Print Assumptions C11_prefix_scan_safe.
+
+(* the block the prefix holds for batch k is the block the complete text holds
+   for k (key and text), unless the complete text stores batch k again later *)
+Theorem C11_prefix_blocks_agree :
+  forall (P S : str) sP sF k blk,
+  scan_text P = Ok sP -> scan_text (P ++ S) = Ok sF ->
+  od_get Z.eqb (s_coll sP) k = Some blk ->
+  (forall a, s_stores sF = a ++ s_stores sP -> forall e, In e a -> fst e <> k) ->
+  od_get Z.eqb (s_coll sF) k = Some blk.
+Proof. exact prefix_blocks_agree. Qed.
+Print Assumptions C11_prefix_blocks_agree.
+
+Theorem C11_prefix_times_agree :
+  forall (P S : str) sP sF k tv,
+  scan_text P = Ok sP -> scan_text (P ++ S) = Ok sF ->
+  od_get tkey_eqb (s_times sP) k = Some tv ->
+  (forall c, s_tevs sF = c ++ s_tevs sP -> forall e, In e c -> fst (fst e) <> k) ->
+  od_get tkey_eqb (s_times sF) k = Some tv.
+Proof. exact prefix_times_agree. Qed.
+Print Assumptions C11_prefix_times_agree.
+
+(* a successful open-and-parse of edition b of the prefix equals that of the
+   complete text (payload of the grammar, batch, times), when the rest of the
+   text stores nothing more for batch b; parse_block is any function of the
+   block *)
+Theorem C11_prefix_parse_identical :
+  forall (payload ptime : Type) (time_ne : ptime -> tval -> bool)
+         (parse_block : block str -> presult payload ptime)
+         (P S : str) sP sF b r,
+  scan_text P = Ok sP -> scan_text (P ++ S) = Ok sF ->
+  edition_closed sP sF b ->
+  (s_partial sP = true -> s_partial sF = true) ->
+  open_and_parse payload ptime time_ne parse_block (self_tagged P) (Number b) = Ok r ->
+  open_and_parse payload ptime time_ne parse_block (self_tagged (P ++ S)) (Number b) = Ok r.
+Proof. exact prefix_parse_identical. Qed.
+Print Assumptions C11_prefix_parse_identical.
+
+(* the hypothesis on the "partial" flag holds for every cut at a line boundary *)
+Theorem C11_prefix_flags_monotone_at_boundary :
+  forall (P S : str) sP sF,
+  P = [] \/ ends_nl P = true ->
+  scan_text P = Ok sP -> scan_text (P ++ S) = Ok sF ->
+  s_partial sP = true -> s_partial sF = true.
+Proof. exact prefix_flags_monotone_at_boundary. Qed.
+Print Assumptions C11_prefix_flags_monotone_at_boundary.
+
+(* opening and parsing any text never fails with anything but ParserException,
+   except the documented KeyError for an edition the text does not hold and
+   what the grammar itself raises on a stored block *)
+Theorem C11_open_and_parse_errors :
+  forall (payload ptime : Type) (time_ne : ptime -> tval -> bool)
+         (parse_block : block str -> presult payload ptime)
+         (ls : list (str * str)) sel e,
+  open_and_parse payload ptime time_ne parse_block ls sel = Err (Other e) ->
+  exists s, scan ls = Ok s /\
+    ((exists b, sel = Number b /\ od_get Z.eqb (s_coll s) b = None /\ e = KeyError) \/
+     (exists bn blk, od_get Z.eqb (s_coll s) bn = Some blk /\
+                     parse_block blk = PRaise payload ptime (PE_Other e))).
+Proof. exact open_and_parse_errors. Qed.
+Print Assumptions C11_open_and_parse_errors.
